@@ -5,9 +5,11 @@ PATCH=$1; shift
 REV=""
 if [ "$1" = "-R" ]; then REV="-R"; shift; fi
 [ "$1" = "--" ] && shift
+if [ -n "$(git -C /repo status --porcelain --untracked-files=no)" ]; then echo "/repo is not clean"; exit 3; fi
+restore() { git -C /repo checkout -- . ; }
+trap restore EXIT INT TERM
 git -C /repo apply $REV "$PATCH" || { echo "patch does not apply"; exit 3; }
 for p in "$@"; do
-  out=$(/verif/check $p quick 2>&1); rc=$?
+  out=$(timeout 900 /verif/check $p quick 2>&1); rc=$?
   echo "== $p rc=$rc"; echo "$out" | grep -E "VIOLATION|KNOWN|BROKEN|obligations" | head -6
 done
-git -C /repo checkout -- . && git -C /repo status --short | head -3
